@@ -537,3 +537,66 @@ func (x *c11X) extractKeySites() error {
 	c.Info("attestation_key_sites", sites)
 	return nil
 }
+
+// extractEffectReads: WHERE the fields exempted from the hash are read.
+//   tally_fields         fields of a claim read on the tally path (TryAttestation and everything it hands the claim to —
+//                        helpers taking the claim as an interface value included: a call claim.GetX() on the interface is
+//                        attributed to field X of every claim type through the type's own getter —, processAttestation,
+//                        emitObservedEvent, GetAttestationMapping, UnobservedBlocksByAddr, DeleteAttestation, the type's
+//                        attestation handler)
+//   submit_fields_nogate fields read on the submission path (msg server, additionalPatchChecks, claimHandlerCommon, Attest)
+//                        other than inside the claim's ValidateBasic
+// The model exempts Orchestrator / Metadata / EventNonce from the hash only as long as none of them is read on the tally
+// path and EventNonce is read by nothing but ValidateBasic (Claims.excluded_ok).
+func (x *c11X) extractEffectReads(names []string, entryGeneric []string) error {
+	c := x.c
+	tally := map[string][]string{}
+	submit := map[string][]string{}
+	for _, n := range names {
+		t := x.types[n]
+		// tally path: everything followed
+		out := map[string]bool{}
+		mseen, fseen := map[string]bool{}, map[string]bool{}
+		for _, g := range entryGeneric {
+			fd := FindFuncIn(x.kfiles, "Keeper", g)
+			if fd == nil {
+				return fmt.Errorf("keeper function %s not found", g)
+			}
+			x.walk(fd.Body, map[string]bool{}, t, out, mseen, fseen)
+		}
+		tally[n] = SortedSet(out)
+		// submission path without the claim's ValidateBasic
+		x.skip = map[string]bool{"ValidateBasic": true}
+		out2 := map[string]bool{}
+		mseen, fseen = map[string]bool{}, map[string]bool{}
+		for _, f := range x.kfiles {
+			for _, d := range f.Decls {
+				fd, ok := d.(*ast.FuncDecl)
+				if !ok || recvType(fd) != "msgServer" || fd.Body == nil {
+					continue
+				}
+				for _, p := range fd.Type.Params.List {
+					if c.Src(p.Type) == "*types."+n && len(p.Names) == 1 {
+						x.walk(fd.Body, map[string]bool{p.Names[0].Name: true}, t, out2, mseen, fseen)
+					}
+				}
+			}
+		}
+		x.skip = nil
+		submit[n] = SortedSet(out2)
+	}
+	emit := func(def string, m map[string][]string) {
+		c.P("Definition %s (ct : string) : list string :=", def)
+		for _, n := range names {
+			c.P("  if String.eqb ct %s then %s else", CoqStr(n), CoqStrList(m[n]))
+		}
+		c.P("  [].")
+	}
+	c.P("(* fields read on the tally path (TryAttestation + every keeper function the claim is handed to, the type's attestation handler) *)")
+	emit("tally_fields", tally)
+	c.P("(* fields read on the submission path outside the claim's own ValidateBasic *)")
+	emit("submit_fields_nogate", submit)
+	c.Info("tally_fields", tally)
+	c.Info("submit_fields_nogate", submit)
+	return nil
+}
